@@ -263,6 +263,11 @@ def oracle(b, p, line, nions, rtol=1e-9):
     r = parse_R(line, nions)
     if r is None:
         return "no answer from the real code: %r" % line[:80]
+    # every number the real code hands back is finite (comparisons with NaN are all false: check first)
+    bad = [x for x in list(r["pos"]) + [r["tau"]] + [v for vals in r["cells"].values() for v in vals] if not math.isfinite(x)]
+    if bad:
+        return "finite: the crossing returns non-finite numbers (end position %r, remaining optical depth %r, %d non-finite estimator entries)" % (
+            r["pos"], r["tau"], sum(1 for vals in r["cells"].values() for v in vals if not math.isfinite(v)))
     n = b["n"]
     cs, inv, hi = block_geom(b)
     a = b["anchor"]
